@@ -226,6 +226,30 @@ fn gen_c13_short(tier: &str, rng: &mut Rng, cases: &mut Vec<Case>) {
             cases.push(c);
         }
     }
+    // lists (ordered ones with many items or a start number, too) inside a quote, an item or a
+    // dd, written compactly and indented: white space between the block tags is not content
+    let nl = if tier == "thorough" { 12000 } else { 1200 };
+    for gi in 0..nl {
+        let nitems = *rng.pick(&[1usize, 2, 3, 5, 6, 7, 8, 9, 10, 12]);
+        let start = if rng.chance(1, 3) { Some(*rng.pick(&[7i64, 8, 9, 97, 98, 99, 0, -3])) } else { None };
+        let ordered = rng.chance(3, 4);
+        let items: Vec<String> = (0..nitems).map(|k| format!("<li>{}</li>", ["ab c", "x", "de", "f g h"][(k + gi) % 4])).collect();
+        let (lo, lc) = if ordered { (match start { Some(s) => format!("<ol start=\"{}\">", s), None => "<ol>".to_string() }, "</ol>") } else { ("<ul>".to_string(), "</ul>") };
+        let (oo, oc) = *rng.pick(&[("<blockquote>", "</blockquote>"), ("<ul><li>", "</li></ul>"), ("<ol><li>", "</li></ol>"), ("<dl><dd>", "</dd></dl>"), ("<div>", "</div>"), ("<blockquote><blockquote>", "</blockquote></blockquote>")]);
+        let ind = *rng.pick(&["\n", "\n  ", "\n\t", " ", "\r\n    "]);
+        let base = format!("{}{}{}{}{}", oo, lo, items.concat(), lc, oc);
+        let variant = format!("{}{}{}{}{}{}{}{}", oo, ind, lo, items.iter().map(|i| format!("{}{}", ind, i)).collect::<String>(), ind, lc, ind, oc);
+        let mut cfg = Cfg { deco: *rng.pick(&[0u8, 2]), ..Default::default() };
+        cfg.overflow = rng.chance(1, 2);
+        let w = rng.range(1, 14);
+        let route = if cfg.deco == 2 { 1 } else { 0 };
+        for (role, h) in [("base", base), ("variant", variant)] {
+            let id = cases.len();
+            let mut c = mk_case(id, route, cfg.clone(), w, h.into_bytes(), Some(route as u64), g(role), "indented_lists");
+            c.group = 7_500_000 + gi;
+            cases.push(c);
+        }
+    }
 }
 fn check_c13(cases: &[Case], results: &[Option<RunResult>]) -> Vec<Violation> {
     let mut v = Vec::new();
@@ -390,6 +414,36 @@ fn gen_c15(tier: &str, rng: &mut Rng) -> Vec<Case> {
             let id = cases.len();
             let mut c = mk_case(id, 0, cfg, w, html.clone().into_bytes(), Some(0), g(role), "strike_off");
             c.group = 9_000_000 + gi;
+            cases.push(c);
+        }
+    }
+    // white space other than ASCII at the end (or in the middle) of struck text: it is white space
+    // to the wrapper with the marks as without them
+    let nq = if tier == "thorough" { 10000 } else { 800 };
+    for gi in 0..nq {
+        let sp = *rng.pick(&["\u{a0}", "\u{2003}", "\u{3000}", "\u{a0}\u{a0}", " \u{a0}", "\u{a0} ", "\u{2009}"]);
+        let word = *rng.pick(&["10", "abc", "x", "\u{4e16}"]);
+        let lead = *rng.pick(&["price", "abcdefgh", "", "ab cd"]);
+        let inner = match rng.below(3) {
+            0 => format!("{}{}", word, sp),
+            1 => format!("{}{}{}", word, sp, word),
+            _ => format!("{}{}", sp, word),
+        };
+        let tag = *rng.pick(&["del", "s"]);
+        let html = match rng.below(5) {
+            0 | 1 => format!("<p>{} <{}>{}</{}></p><p>next</p>", lead, tag, inner, tag),
+            2 => format!("<ul><li>{} <{}>{}</{}></li><li>b</li></ul>", lead, tag, inner, tag),
+            3 => format!("<table><tr><td>{} <{}>{}</{}></td><td>c</td></tr></table>", lead, tag, inner, tag),
+            _ => format!("<blockquote>{} <{}>{}</{}> end</blockquote>", lead, tag, inner, tag),
+        };
+        let base = Cfg { deco: *rng.pick(&[0u8, 1, 2, 3]), overflow: rng.chance(1, 4), ..Default::default() };
+        let mut var = base.clone();
+        var.strike = 2;
+        let w = rng.range(3, 16);
+        for (role, cfg) in [("base", base), ("variant", var)] {
+            let id = cases.len();
+            let mut c = mk_case(id, 0, cfg, w, html.clone().into_bytes(), Some(0), g(role), "strike_off");
+            c.group = 9_500_000 + gi;
             cases.push(c);
         }
     }
@@ -751,7 +805,7 @@ fn gen_c14(tier: &str, rng: &mut Rng) -> Vec<Case> {
     let mut cases = Vec::new();
     for _ in 0..n {
         let tables = rng.chance(1, 4);
-        let o = GenOpts { tables: if tables { 1 } else { 0 }, nested_tables: false, links: true, ids: true, pre: true, dl: true, br: false, imgs: false, sup: false, ..Default::default() };
+        let o = GenOpts { tables: if tables { 1 } else { 0 }, nested_tables: false, links: true, ids: true, pre: true, dl: true, br: true, imgs: false, sup: false, ..Default::default() };
         let (html, ast) = gen_doc(rng, o);
         let mut cfg = Cfg { deco: *rng.pick(&[3u8, 3, 2, 1]), ..Default::default() };
         if tables && rng.chance(1, 3) {
@@ -794,6 +848,27 @@ fn gen_c14(tier: &str, rng: &mut Rng) -> Vec<Case> {
         }
         let id = cases.len();
         cases.push(mk_case(id, 1, cfg, w, html.into_bytes(), Some(1), g(""), if tables { "tables" } else { "flow" }));
+    }
+    // an element with an id that begins with forced line breaks and then a block, first in its
+    // container or not: with and without the id
+    let nb = if tier == "thorough" { 6000 } else { 600 };
+    for _ in 0..nb {
+        let (o1, o2) = *rng.pick(&[("<div ID>", "</div>"), ("<blockquote ID>", "</blockquote>"), ("<ul><li ID>", "</li></ul>"), ("<ol><li ID>", "</li></ol>"), ("<dl><dd ID>", "</dd></dl>"), ("<table><tr><td ID>", "</td><td>zz</td></tr></table>"), ("<div><span ID>", "</span></div>"), ("<p ID>", "</p>")]);
+        let (b1, b2) = *rng.pick(&[("<p>", "</p>"), ("<h2>", "</h2>"), ("<pre>", "</pre>"), ("<blockquote>", "</blockquote>"), ("<ul><li>", "</li></ul>"), ("<div>", "</div>"), ("<dl><dt>", "</dt></dl>"), ("", "")]);
+        let brs = "<br>".repeat(rng.range(0, 2));
+        let lead = *rng.pick(&["", "", "<p>before</p>", "lead ", " "]);
+        let tail = *rng.pick(&["", "<p>after</p>", " tail"]);
+        let body = format!("{}{}{}{}text here{}{}{}", lead, o1, brs, b1, b2, o2, tail);
+        let w = rng.range(6, 30);
+        let cfg = Cfg { deco: *rng.pick(&[0u8, 1, 2]), ..Default::default() };
+        for (role, h) in [("with_ids", body.replace(" ID", " id=a1")), ("without_ids", body.replace(" ID", ""))] {
+            let id = cases.len();
+            cases.push(mk_case(id, 1, cfg.clone(), w, h.into_bytes(), Some(1), g(role), "ids_vs_none"));
+        }
+        let k = cases.len();
+        let gnum = 7_000_000 + k;
+        cases[k - 1].group = gnum;
+        cases[k - 2].group = gnum;
     }
     cases
 }
@@ -1036,6 +1111,27 @@ fn check_c09(cases: &[Case], results: &[Option<RunResult>]) -> Vec<Violation> {
                                     table_styled = true;
                                 }
                                 anns.push(if bg { Ann::Bg(r_, g_, b_) } else { Ann::Colour(r_, g_, b_) });
+                            }
+                        }
+                    }
+                    if c.spec.cfg.doc_css {
+                        // (style first, then color=, then bgcolor= : the generator writes at most one)
+                        for (k, bg) in [("color", false), ("bgcolor", true)] {
+                            if let Some(val) = a.attr(k) {
+                                let rgb = match val {
+                                    "red" => Some((255u8, 0u8, 0u8)),
+                                    "#00f" => Some((0, 0, 255)),
+                                    "green" => Some((0, 128, 0)),
+                                    "00aabb" => Some((0, 0xaa, 0xbb)),
+                                    "#0a0b0c" => Some((10, 11, 12)),
+                                    _ => None,
+                                };
+                                if let Some((r_, g_, b_)) = rgb {
+                                    if name == "table" {
+                                        table_styled = true;
+                                    }
+                                    anns.push(if bg { Ann::Bg(r_, g_, b_) } else { Ann::Colour(r_, g_, b_) });
+                                }
                             }
                         }
                     }
